@@ -316,10 +316,7 @@ def replay(case):
     acc = fw.Acc()
     fam = case.get('family')
     if fam == 'S':
-        C01.run_s(('S', case['procs'], case['script'],
-                   case.get('nested', False),
-                   case.get('engine', {}).get('initial_global_time', 0)),
-                  acc, MONITORS)
+        C01.run_s(C01.s_job_of(case), acc, MONITORS)
     elif fam == 'X':
         run_special(('X', case), acc)
     elif fam == 'P':
